@@ -607,12 +607,18 @@ static SIGNATURES: std::sync::atomic::AtomicU64 = std::sync::atomic::AtomicU64::
 const SIGNATURE_CAP: u64 = 150;
 
 fn record_crash(prop: &dyn Property, tier: Tier, idx: u64, kind: &str, agg: &Mutex<Agg>) {
-    CRASHES.fetch_add(1, Ordering::SeqCst);
     let mut g = agg.lock().unwrap();
     if prop.crash_is_violation() {
         let (k, w, d) = prop.crash_signature(tier, idx, kind);
+        // a recorded finding does not count towards the early stop: the run has to reach everything else
+        let sig = format!("{} :: {}", k, w);
+        let known = load_findings(prop.id()).iter().any(|f| !f.fixed && f.sig == sig);
+        if !known {
+            CRASHES.fetch_add(1, Ordering::SeqCst);
+        }
         g.add_violation(Violation { kind: k, witness: w, detail: d, idx, count: 1 });
     } else {
+        CRASHES.fetch_add(1, Ordering::SeqCst);
         g.machinery.push(format!("{} of element {} ({}) in a property whose subject calls are all guarded", kind, idx, prop.describe(tier, idx)));
     }
 }
